@@ -431,8 +431,8 @@ func c13History(r *Run, kind string, expiry bool) {
 // ---------------------------------------------------------------- concurrency
 
 type c13Thread struct {
-	put    *b44Item  // nil: a Get
-	api    bool      // server scenario: true = Server.Put, false = inbound put
+	put    *b44Item // nil: a Get
+	api    bool     // server scenario: true = Server.Put, false = inbound put
 	result string
 }
 
